@@ -669,4 +669,122 @@ theorem applyOp_pj_any_transfer (σ : Leaves) (st : Store) (fuel : Nat) (p : PJo
                     unfold PJoin.lhs PJoin.rhs
                     split <;> simp only [Cols.mem_union, c1 u] <;> first | exact Iff.rfl | exact Or.comm
 
+/-! ### Every option combination -/
+
+/-- The not-finished branch of `apply` with `transfer=True`: the target transferred into the database and joined. -/
+theorem pj_joined_after_transfer (σ : Leaves) (st : Store) (fuel : Nat) (p p' : PJoin) (t : Rel)
+    (hkt : t.engine.kind = .iter) (hks : p.fixed.engine.kind = .sql) (gF : Good NodeInv.triv σ p.fixed)
+    (hwf : t.WF) (htrt : t.Truthful σ) (hts : transferSimplify p.fixed.engine t = none)
+    (f1 : p'.fixed = p.fixed) (f5 : p'.join.minCols.subset p.fixed.columns = true)
+    (f6 : p'.join.minCols.subset t.columns = true)
+    (f7 : p'.join.pred.columnsRequired.subset (p.fixed.columns.union t.columns) = true)
+    (r1 : Res) (htt : transferTo st fuel p.fixed.engine t = .ok r1) :
+    ∃ x, r1 = .new x ∧ ∀ r2, appendUnary st fuel (.pj p') x = .ok r2 → ∃ T, r2 = .new T ∧ JoinedIn σ p' t T := by
+  have hne : p.fixed.engine ≠ t.engine := fun hh => by rw [hh, hkt] at hks; cases hks
+  obtain ⟨s1, c1, w1, t1, e1, _, g1⟩ := transferTo_sql_sound σ st fuel p.fixed.engine t r1 hwf htrt
+    (fun hq => by rw [hkt] at hq; cases hq) hts htt
+  have g1 := g1 hks
+  have e1 := e1 (fun hh => hne hh.symm)
+  cases r1 with
+  | same => exact absurd e1 (fun hh => hne hh.symm)
+  | new x =>
+    refine ⟨x, rfl, fun r2 happ => ?_⟩
+    simp only [Res.get] at s1 c1 w1 t1 e1 g1
+    have hsub : ∀ a : Cols, a.subset t.columns = true → a.subset x.columns = true := fun a ha =>
+      (Cols.subset_iff _ _).mpr (fun u hu => (c1 u).mpr ((Cols.subset_iff _ _).mp ha u hu))
+    have hcl : p'.join.minCols.subset (p'.lhs x).columns = true := by
+      unfold PJoin.lhs; split
+      · rw [f1]; exact f5
+      · exact hsub _ f6
+    have hcr : p'.join.minCols.subset (p'.rhs x).columns = true := by
+      unfold PJoin.rhs; split
+      · exact hsub _ f6
+      · rw [f1]; exact f5
+    have hp : p'.join.pred.columnsRequired.subset ((p'.lhs x).columns.union (p'.rhs x).columns) = true := by
+      refine (Cols.subset_iff _ _).mpr fun u hu => ?_
+      have := (Cols.mem_union _ _ _).mp ((Cols.subset_iff _ _).mp f7 u hu)
+      have this' : u ∈ p.fixed.columns ∨ u ∈ x.columns := this.imp id (fun h => (c1 u).mpr h)
+      unfold PJoin.lhs PJoin.rhs
+      rw [f1]
+      split
+      · exact (Cols.mem_union _ _ _).mpr this'
+      · exact (Cols.mem_union _ _ _).mpr this'.symm
+    obtain ⟨T, hT, gT, _, semT, colT, engT⟩ :=
+      appendUnary_pj_sound σ st fuel p' x g1 (f1 ▸ gF) hcl hcr hp r2 happ
+    refine ⟨T, hT, ⟨gT.wf, gT.truthful, ?_, ?_, ?_⟩⟩
+    · rw [engT]; unfold PJoin.lhs; split
+      · rfl
+      · rw [f1]; exact e1
+    · rw [semT]
+      unfold PJoin.semRows PJoin.lhs PJoin.rhs
+      split <;> simp only [s1] <;> exact List.Perm.refl _
+    · intro u
+      rw [colT u, PJoin.mem_appliedColumns]
+      unfold PJoin.lhs PJoin.rhs
+      split <;> simp only [Cols.mem_union, c1 u] <;> first | exact Iff.rfl | exact Or.comm
+
+/-- **`PartialJoin.apply` with EVERY combination of `backtrack` / `transfer` / `require_preferred_engine`** (preferred
+engine = the fixed relation's database, target in an iteration engine). -/
+theorem applyOp_pj_all_options (σ : Leaves) (st : Store) (fuel : Nat) (p : PJoin) (t : Rel) (o : Opts)
+    (hpref : o.pref = none)
+    (hkt : t.engine.kind = .iter) (hks : p.fixed.engine.kind = .sql)
+    (gF : Good NodeInv.triv σ p.fixed)
+    (hfix0 : p.join.resolved = true → p.join.minCols.subset p.fixed.columns = true)
+    (hwf : t.WF) (htrt : t.Truthful σ) (hpo : t.prefTargetsGood NodeInv.triv σ p.fixed.engine)
+    (hnp : t.spineNoPayload st) (hts : o.transfer = true → transferSimplify p.fixed.engine t = none)
+    (res : Res) (h : applyOp st fuel (.pj p) t o = .ok res) :
+    ∃ p', p.beginApply t none = .ok (p', p.fixed.engine) ∧
+      ((o.backtrack = true ∧ BTJ σ p' t (res.get t)) ∨ (o.transfer = true ∧ JoinedIn σ p' t (res.get t))) := by
+  cases hbt : o.backtrack with
+  | true =>
+    obtain ⟨p', hb, B | J⟩ := applyOp_pj_any_transfer σ st fuel p t o hpref hbt hkt hks gF hfix0 hwf htrt hpo hnp hts res h
+    · exact ⟨p', hb, Or.inl ⟨rfl, B⟩⟩
+    · exact ⟨p', hb, Or.inr J⟩
+  | false =>
+    cases fuel with
+    | zero => rw [applyOp] at h; cases h
+    | succ fuel =>
+      rw [applyOp] at h
+      simp only [AnyOp.beginApply, bind, Except.bind, pure, Except.pure, Except.map, hpref] at h
+      cases hb : p.beginApply t none with
+      | error e => simp [hb] at h
+      | ok v =>
+        obtain ⟨p', e⟩ := v
+        obtain ⟨f1, _, _, f4, f5, f6, f7, _⟩ := pjBeginApply_ok p t none p' e hfix0 hb
+        have he : e = p.fixed.engine := f4
+        subst he
+        have hne : p.fixed.engine ≠ t.engine := fun hh => by rw [hh, hkt] at hks; cases hks
+        have hne' : (p.fixed.engine != t.engine) = true := by simpa using hne
+        simp only [hb, hne', hbt, if_true, Bool.false_eq_true, if_false, Bool.not_false, Res.get] at h
+        have hx : ∀ r, appendUnary st fuel (.pj p') t ≠ .ok r :=
+          fun r => appendUnary_pj_cross_engine st fuel p' t hkt (by rw [f1]; exact hne) r
+        cases htr : o.transfer with
+        | false =>
+          exfalso
+          simp only [htr, Bool.false_eq_true, if_false] at h
+          cases happ : appendUnary st fuel (.pj p') t with
+          | ok r => exact hx r happ
+          | error e =>
+            simp only [happ] at h
+            split at h
+            · simp [throw, throwThe, MonadExceptOf.throw] at h
+            · cases h
+        | true =>
+          simp only [htr, if_true] at h
+          cases htt : transferTo st fuel p.fixed.engine t with
+          | error e => simp [htt] at h
+          | ok r1 =>
+            obtain ⟨x, hx1, K⟩ := pj_joined_after_transfer σ st fuel p p' t hkt hks gF hwf htrt (hts htr) f1 f5 f6 f7 r1 htt
+            subst hx1
+            simp only [htt, Res.get] at h
+            cases happ : appendUnary st fuel (.pj p') x with
+            | error e => simp [happ] at h
+            | ok r2 =>
+              obtain ⟨T, hT, J⟩ := K r2 happ
+              subst hT
+              simp only [happ] at h
+              injection h with h
+              subst h
+              exact ⟨p', rfl, Or.inr ⟨rfl, J⟩⟩
+
 end DafRel
